@@ -252,31 +252,31 @@ theorem treeonly_inv (hInj : InjOn hash K) {n n' : Nat} (hn : n ≤ n') {b : Buc
 
 def oldVer (b : Bucket) (h : Nat) : Int := match AMap.get b.tree h with | some it => it.ver | none => 0
 
-theorem cas_none (cfg : Store.Cfg) (b : Bucket) (k : Key) (body : Bytes) (flag : Nat) (rev : Int) (ts : Option Nat) (size : Nat)
+theorem cas_none (cfg : Store.Cfg) (b : Bucket) (k : Key) (body : Bytes) (flag : Nat) (rev : Int) (ts : Option Nat) (size wts : Nat)
     (h1 : AMap.get b.tree (hash k) = none) :
-    checkAndSet hash cfg b k body flag rev ts size =
+    checkAndSet hash cfg b k body flag rev ts size wts =
       (if (nextVer 0 rev).2 = false then (b, .done none)
        else if (nextVer 0 rev).1 < 0 then (b, .notFound)
-       else ((b.put hash cfg { key := k, ver := (nextVer 0 rev).1, flag := flag, ts := ts, body := body, size := size }).1,
-             .done (some (b.put hash cfg { key := k, ver := (nextVer 0 rev).1, flag := flag, ts := ts, body := body, size := size }).2))) := by
+       else ((b.put hash cfg { key := k, ver := (nextVer 0 rev).1, flag := flag, ts := ts, body := body, size := size, wts := wts }).1,
+             .done (some (b.put hash cfg { key := k, ver := (nextVer 0 rev).1, flag := flag, ts := ts, body := body, size := size, wts := wts }).2))) := by
   unfold checkAndSet
   simp only [h1]
 
-theorem cas_some (cfg : Store.Cfg) (b : Bucket) (k : Key) (body : Bytes) (flag : Nat) (rev : Int) (ts : Option Nat) (size : Nat)
+theorem cas_some (cfg : Store.Cfg) (b : Bucket) (k : Key) (body : Bytes) (flag : Nat) (rev : Int) (ts : Option Nat) (size wts : Nat)
     (it : TItem) (h1 : AMap.get b.tree (hash k) = some it) :
-    checkAndSet hash cfg b k body flag rev ts size =
+    checkAndSet hash cfg b k body flag rev ts size wts =
       (if (it.ver > 0 ∧ (if rev ≥ 0 then vhashOf body else 0) = it.vhash) ∧ cfg.checkVHash = true then
          ((if rev ≠ 0 then { b with tree := AMap.set b.tree (hash k) { it with ver := rev, vhash := (if rev ≥ 0 then vhashOf body else 0) } } else b), .done none)
        else if (nextVer it.ver rev).2 = false then (b, .done none)
        else if (nextVer it.ver rev).1 < 0 ∧ it.ver < 0 then (b, .notFound)
-       else ((b.put hash cfg { key := k, ver := (nextVer it.ver rev).1, flag := flag, ts := ts, body := body, size := size }).1,
-             .done (some (b.put hash cfg { key := k, ver := (nextVer it.ver rev).1, flag := flag, ts := ts, body := body, size := size }).2))) := by
+       else ((b.put hash cfg { key := k, ver := (nextVer it.ver rev).1, flag := flag, ts := ts, body := body, size := size, wts := wts }).1,
+             .done (some (b.put hash cfg { key := k, ver := (nextVer it.ver rev).1, flag := flag, ts := ts, body := body, size := size, wts := wts }).2))) := by
   unfold checkAndSet
   simp only [h1]
 
 theorem step_set (cfg : Store.Cfg) (b : Bucket) (k : Key) (body : Bytes) (flag : Nat) (rev : Int) (ts size : Nat) :
     Store.step hash cfg b (.set k body flag rev ts size) =
-      (match checkAndSet hash cfg b k body flag rev (some ts) size with
+      (match checkAndSet hash cfg b k body flag rev (some ts) size ts with
        | (b', .done pos) => (b', .stored, pos)
        | (b', .notFound) => (b', .error, none)) := rfl
 
@@ -314,7 +314,7 @@ theorem set_refines (cfg : Store.Cfg) (hInj : InjOn hash K) {n : Nat} (hn : n + 
   · -- key unknown to both
     have hnv := nextVer_eq 0 rev (by simp) (by omega) (by omega)
     have hset := nextVersion_set 0 rev hr0
-    rw [cas_none hash cfg b k body flag rev (some ts) size a1, spec_set_none _ m k body flag rev ts a2, hnv]
+    rw [cas_none hash cfg b k body flag rev (some ts) size ts a1, spec_set_none _ m k body flag rev ts a2, hnv]
     cases hok : (Spec.nextVersion 0 rev).2 with
     | false => simp [inv_mono hash K (Nat.le_succ n) inv]
     | true =>
@@ -325,13 +325,13 @@ theorem set_refines (cfg : Store.Cfg) (hInj : InjOn hash K) {n : Nat} (hn : n + 
         · simp at h; omega
         · rw [h]; omega
       have := put_inv hash K cfg hInj (Nat.le_succ n) inv
-        { key := k, ver := (Spec.nextVersion 0 rev).1, flag := flag, ts := some ts, body := body, size := size } hk hs hb hv'
+        { key := k, ver := (Spec.nextVersion 0 rev).1, flag := flag, ts := some ts, body := body, size := size, wts := ts } hk hs hb hv'
       simp only [Bool.true_eq_false, if_false, hlt, if_true]
       exact ⟨trivial, this⟩
   · have hov : it.ver.natAbs < 2147483647 := by omega
     have hnv := nextVer_eq it.ver rev hov (by omega) (by omega)
     have hset := nextVersion_set it.ver rev hr0
-    rw [cas_some hash cfg b k body flag rev (some ts) size it a1, spec_set_some _ m k body flag rev ts e a2, hnv, hvhif, a5]
+    rw [cas_some hash cfg b k body flag rev (some ts) size ts it a1, spec_set_some _ m k body flag rev ts e a2, hnv, hvhif, a5]
     have hsame : (it.ver > 0 ∧ vhashOf body = it.vhash) ↔ (it.ver > 0 ∧ Ref.vhash e.body = Ref.vhash body) := by
       by_cases hp : it.ver > 0
       · simp only [hp, if_true] at a9
@@ -362,13 +362,13 @@ theorem set_refines (cfg : Store.Cfg) (hInj : InjOn hash K) {n : Nat} (hn : n + 
           · omega
           · rw [h]; omega
         have := put_inv hash K cfg hInj (Nat.le_succ n) inv
-          { key := k, ver := (Spec.nextVersion it.ver rev).1, flag := flag, ts := some ts, body := body, size := size } hk hs hb hv'
+          { key := k, ver := (Spec.nextVersion it.ver rev).1, flag := flag, ts := some ts, body := body, size := size, wts := ts } hk hs hb hv'
         simp only [Bool.true_eq_false, if_false, hlt, if_true]
         exact ⟨trivial, this⟩
 
-theorem step_delete (cfg : Store.Cfg) (b : Bucket) (k : Key) (size : Nat) :
-    Store.step hash cfg b (.delete k size) =
-      (match checkAndSet hash cfg b k [] 0 (-1) none size with
+theorem step_delete (cfg : Store.Cfg) (b : Bucket) (k : Key) (size wts : Nat) :
+    Store.step hash cfg b (.delete k size wts) =
+      (match checkAndSet hash cfg b k [] 0 (-1) none size wts with
        | (b', .done pos) => (b', .deleted, pos)
        | (b', .notFound) => (b', .notFound, none)) := rfl
 
@@ -376,19 +376,19 @@ theorem nextVersion_neg (oldv : Int) : Spec.nextVersion oldv (-1) = (-(oldv.natA
   simp [Spec.nextVersion]
 
 theorem delete_refines (cfg : Store.Cfg) (hInj : InjOn hash K) {n : Nat} (hn : n + 1 < 2147483647) {b : Bucket} {m : KV}
-    (inv : Inv hash K n b m) (k : Key) (size : Nat) (hk : K k) (hs : 0 < size) :
-    (Store.step hash cfg b (.delete k size)).2.1 = (Spec.step { checkVHash := cfg.checkVHash } m (.delete k)).2
-    ∧ Inv hash K (n + 1) (Store.step hash cfg b (.delete k size)).1 (Spec.step { checkVHash := cfg.checkVHash } m (.delete k)).1 := by
+    (inv : Inv hash K n b m) (k : Key) (size wts : Nat) (hk : K k) (hs : 0 < size) :
+    (Store.step hash cfg b (.delete k size wts)).2.1 = (Spec.step { checkVHash := cfg.checkVHash } m (.delete k)).2
+    ∧ Inv hash K (n + 1) (Store.step hash cfg b (.delete k size wts)).1 (Spec.step { checkVHash := cfg.checkVHash } m (.delete k)).1 := by
   rw [step_delete]
   have hneg : ¬ ((-1 : Int) ≥ 0) := by decide
   rcases inv.agree k hk with ⟨a1, a2⟩ | ⟨it, e, r, a1, a2, a3, a4, a5, a6, a7, a8, a9, a10, a11⟩
   · have hnv := nextVer_eq 0 (-1) (by simp) (by omega) (by omega)
-    rw [cas_none hash cfg b k [] 0 (-1) none size a1, hnv, nextVersion_neg]
+    rw [cas_none hash cfg b k [] 0 (-1) none size wts a1, hnv, nextVersion_neg]
     simp only [Spec.step, a2]
     simp [inv_mono hash K (Nat.le_succ n) inv]
   · have hov : it.ver.natAbs < 2147483647 := by omega
     have hnv := nextVer_eq it.ver (-1) hov (by omega) (by omega)
-    rw [cas_some hash cfg b k [] 0 (-1) none size it a1, hnv, nextVersion_neg]
+    rw [cas_some hash cfg b k [] 0 (-1) none size wts it a1, hnv, nextVersion_neg]
     simp only [hneg, if_false]
     have hspec : Spec.step { checkVHash := cfg.checkVHash } m (.delete k) =
         (if e.ver < 0 then (m, .notFound)
@@ -421,7 +421,7 @@ theorem delete_refines (cfg : Store.Cfg) (hInj : InjOn hash K) {n : Nat} (hn : n
           rw [this, vhashOf_eq r.body a10, ← a7]; exact h.2.2.symm
         rw [if_neg h1, if_neg hlt, if_neg hc']
         have := put_inv hash K cfg hInj (Nat.le_succ n) inv
-          { key := k, ver := -(it.ver.natAbs : Int) - 1, flag := 0, ts := none, body := [], size := size } hk hs (by simp) (by simp; omega)
+          { key := k, ver := -(it.ver.natAbs : Int) - 1, flag := 0, ts := none, body := [], size := size, wts := wts } hk hs (by simp) (by simp; omega)
         exact ⟨rfl, this⟩
 
 theorem natDigitsAux_length (fuel n : Nat) (acc : Bytes) : (Spec.natDigitsAux fuel n acc).length ≤ fuel + acc.length := by
@@ -441,24 +441,24 @@ theorem itoa_length (v : Int) : (Spec.itoa v).length < 2^63 := by
   split <;> simp at * <;> omega
 
 theorem incr_write (cfg : Store.Cfg) (hInj : InjOn hash K) {n : Nat} {b : Bucket} {m : KV}
-    (inv : Inv hash K n b m) (k : Key) (size : Nat) (hk : K k) (hs : 0 < size) (ver v : Int) (hv : ver.natAbs ≤ n + 1) :
-    Inv hash K (n + 1) (b.put hash cfg { key := k, ver := ver, flag := Spec.FLAG_INCR, ts := none, body := Spec.itoa v, size := size }).1
+    (inv : Inv hash K n b m) (k : Key) (size wts : Nat) (hk : K k) (hs : 0 < size) (ver v : Int) (hv : ver.natAbs ≤ n + 1) :
+    Inv hash K (n + 1) (b.put hash cfg { key := k, ver := ver, flag := Spec.FLAG_INCR, ts := none, body := Spec.itoa v, size := size, wts := wts }).1
       (AMap.set m k { ver := ver, flag := Spec.FLAG_INCR, body := Spec.itoa v, ts := none }) :=
   put_inv hash K cfg hInj (Nat.le_succ n) inv
-    { key := k, ver := ver, flag := Spec.FLAG_INCR, ts := none, body := Spec.itoa v, size := size } hk hs (itoa_length v) hv
+    { key := k, ver := ver, flag := Spec.FLAG_INCR, ts := none, body := Spec.itoa v, size := size, wts := wts } hk hs (itoa_length v) hv
 
 theorem incr_refines (cfg : Store.Cfg) (hInj : InjOn hash K) {n : Nat} {b : Bucket} {m : KV}
-    (inv : Inv hash K n b m) (k : Key) (delta : Int) (size : Nat) (hk : K k) (hs : 0 < size) :
-    (Store.step hash cfg b (.incr k delta size)).2.1 = (Spec.step { checkVHash := cfg.checkVHash } m (.incr k delta)).2
-    ∧ Inv hash K (n + 1) (Store.step hash cfg b (.incr k delta size)).1 (Spec.step { checkVHash := cfg.checkVHash } m (.incr k delta)).1 := by
+    (inv : Inv hash K n b m) (k : Key) (delta : Int) (size wts : Nat) (hk : K k) (hs : 0 < size) :
+    (Store.step hash cfg b (.incr k delta size wts)).2.1 = (Spec.step { checkVHash := cfg.checkVHash } m (.incr k delta)).2
+    ∧ Inv hash K (n + 1) (Store.step hash cfg b (.incr k delta size wts)).1 (Spec.step { checkVHash := cfg.checkVHash } m (.incr k delta)).1 := by
   have mono := inv_mono hash K (Nat.le_succ n) inv
   rcases lookup_of_agree hash (inv.agree k hk) with ⟨h1, h2⟩ | ⟨it, e, r, _, h2, h3, _, h5, h6, h7, _, _, _, h11⟩
   · simp only [Store.step, Spec.step, h1, h2]
-    exact ⟨by first | rfl | trivial, incr_write hash K cfg hInj inv k size hk hs 1 delta (by simp)⟩
+    exact ⟨by first | rfl | trivial, incr_write hash K cfg hInj inv k size wts hk hs 1 delta (by simp)⟩
   · simp only [Store.step, Spec.step, h2, h3, h5, h6, h7]
     by_cases hneg : it.ver < 0
     · simp only [hneg, ↓reduceIte]
-      exact ⟨by first | rfl | trivial, incr_write hash K cfg hInj inv k size hk hs 1 delta (by simp)⟩
+      exact ⟨by first | rfl | trivial, incr_write hash K cfg hInj inv k size wts hk hs 1 delta (by simp)⟩
     · simp only [hneg, ↓reduceIte]
       by_cases hf : r.flag ≠ Spec.FLAG_INCR
       · rw [if_pos hf, if_pos hf]; exact ⟨by first | rfl | trivial, mono⟩
@@ -469,7 +469,7 @@ theorem incr_refines (cfg : Store.Cfg) (hInj : InjOn hash K) {n : Nat} {b : Buck
           cases hp : Spec.parseInt r.body with
           | none => exact ⟨by first | rfl | trivial, mono⟩
           | some old =>
-            exact ⟨by first | rfl | trivial, incr_write hash K cfg hInj inv k size hk hs (it.ver + 1) (old + delta) (by omega)⟩
+            exact ⟨by first | rfl | trivial, incr_write hash K cfg hInj inv k size wts hk hs (it.ver + 1) (old + delta) (by omega)⟩
 
 theorem flush_inv {n : Nat} (cfg : Store.Cfg) {b : Bucket} {m : KV} (inv : Inv hash K n b m) :
     Inv hash K n (Store.step hash cfg b .flush).1 m := by
@@ -502,8 +502,8 @@ theorem flush_inv {n : Nat} (cfg : Store.Cfg) {b : Bucket} {m : KV} (inv : Inv h
     revisions 0 or positive and at most `R` -/
 def OpOK (R : Nat) : Op → Prop
   | .set k body _ rev _ size => K k ∧ 0 < size ∧ body.length < 2^63 ∧ 0 ≤ rev ∧ rev.natAbs ≤ R
-  | .delete k size => K k ∧ 0 < size
-  | .incr k _ size => K k ∧ 0 < size
+  | .delete k size _ => K k ∧ 0 < size
+  | .incr k _ size _ => K k ∧ 0 < size
   | .get k => K k
   | .info k => K k
   | .flush => True
@@ -537,13 +537,13 @@ theorem run_refines (cfg : Store.Cfg) (hInj : InjOn hash K) (R : Nat) (ops : Lis
       obtain ⟨hk, hs, hb, hr0, hrR⟩ := hop
       have := set_refines hash K cfg hInj (by rw [hlen] at hn; omega) inv k body flag rev ts size hk hs hb hr0 (by omega)
       exact key _ rfl this.1 this.2
-    | delete k size =>
+    | delete k size wts =>
       obtain ⟨hk, hs⟩ := hop
-      have := delete_refines hash K cfg hInj (by rw [hlen] at hn; omega) inv k size hk hs
+      have := delete_refines hash K cfg hInj (by rw [hlen] at hn; omega) inv k size wts hk hs
       exact key _ rfl this.1 this.2
-    | incr k d size =>
+    | incr k d size wts =>
       obtain ⟨hk, hs⟩ := hop
-      have := incr_refines hash K cfg hInj inv k d size hk hs
+      have := incr_refines hash K cfg hInj inv k d size wts hk hs
       exact key _ rfl this.1 this.2
     | get k =>
       have := get_refines hash K cfg inv k hop
